@@ -49,8 +49,8 @@ type Q struct {
 	nilChecked map[string]bool
 }
 
-func newQ(p *Prog, fnName string) *Q {
-	return &Q{P: p, so: p.so, strlits: map[string]Term{}, litOf: map[string]string{}, declared: map[string]bool{}, fnName: fnName, extraSeen: map[string]bool{}, nilChecked: map[string]bool{}}
+func newQ(p *Prog, fnName string, bv bool) *Q {
+	return &Q{P: p, so: newSorts(bv), strlits: map[string]Term{}, litOf: map[string]string{}, declared: map[string]bool{}, fnName: fnName, extraSeen: map[string]bool{}, nilChecked: map[string]bool{}}
 }
 
 func (q *Q) note(format string, a ...any) {
@@ -184,13 +184,12 @@ func (h *Heap) clone() *Heap {
 }
 
 // heap key sorts are derivable from the key itself (recorded at first use).
-var heapKeySort = map[string]string{}
 
 func (q *Q) heapGet(h *Heap, key string) Term {
 	if t, ok := h.m[key]; ok {
 		return t
 	}
-	sort, ok := heapKeySort[key]
+	sort, ok := q.so.keySort[key]
 	if !ok {
 		panic("heap key without sort: " + key)
 	}
@@ -254,7 +253,7 @@ func (q *Q) mergeHeaps(conds []Term, hs []*Heap) *Heap {
 
 const allocKey = "$alloc"
 
-func init() { heapKeySort[allocKey] = sInt }
+
 
 // havocAll returns a heap about which nothing is known except alloc monotonicity.
 func (q *Q) havocAll(h *Heap, guard Term) *Heap {
